@@ -337,6 +337,9 @@ func (in *Interp) convert(dst, src types.Type, x Value) Value {
 					if sv.Arr != nil && sv.Arr.Num != nil {
 						return Str{Num: sv.Arr.Num}
 					}
+					if sv.Arr != nil && sv.Arr.FloatOf != nil {
+						return Str{FloatOf: sv.Arr.FloatOf, S: "<float>"}
+					}
 					b := make([]*Term, sv.Len)
 					for i := 0; i < sv.Len; i++ {
 						b[i] = sv.Arr.V[sv.Off+i].(*Term)
@@ -370,6 +373,10 @@ func (in *Interp) convert(dst, src types.Type, x Value) Value {
 			if el.Kind() == types.Uint8 {
 				if s.Num != nil {
 					arr := &Agg{Num: s.Num}
+					return Slice{Arr: arr, Len: -1, Cap: -1}
+				}
+				if s.FloatOf != nil {
+					arr := &Agg{FloatOf: s.FloatOf}
 					return Slice{Arr: arr, Len: -1, Cap: -1}
 				}
 				b := in.strBytes(s)
